@@ -186,7 +186,7 @@ class Scenario:
         w = line.split()
         nl = self.nl
         now = datetime.datetime.utcnow
-        if w[0] in ('start', 'run', 'rac', 'rcw', 'reset', 'close') and self.pending:
+        if w[0] in ('start', 'run', 'rac', 'rcw', 'reset', 'close', 'xreset', 'xclose') and self.pending:
             return 'skipped'          # serial histories: no lifecycle call while another one is blocked
         if w[0] == 'start':
             await self._call('start', nl.start())
@@ -236,6 +236,39 @@ class Scenario:
                         c.exit(RunResult(ret=int(w[1])), exitcode=0)
             await settle()
             self._collect()
+        elif w[0] in ('xreset', 'xclose'):
+            # the child exits; a caller that watches the state attribute calls reset()/close() the moment it reads
+            # 'finished' — the `finish` transition may still be suspended in its hooks
+            live = self.world.live()
+            if live:
+                c = live[-1]
+
+                async def watcher() -> Any:
+                    for _ in range(2000):
+                        if nl.state == 'finished':
+                            break
+                        await asyncio.sleep(0)
+                    else:
+                        return 'never-finished'
+                    if w[0] == 'xreset':
+                        return await nl.reset()
+                    return await nl.close()
+                name = 'reset' if w[0] == 'xreset' else 'close'
+                wt = asyncio.ensure_future(watcher())
+                if w[1] == '-':
+                    c.exit(None, exitcode=-9)
+                else:
+                    c.exit(RunResult(ret=int(w[1])), exitcode=0)
+                await settle()
+                self._collect()
+                if wt.done():
+                    self.tok(f'ret:{name}:{self._res(wt)}')
+                else:
+                    self.tok(f'blocked:{name}')
+                    self.pending.append((name, wt))
+            else:
+                await settle()
+                self._collect()
         elif w[0] == 'exit':
             live = self.world.live()
             if live:
